@@ -95,8 +95,9 @@ def run(spec, R):
     ix = treegen.index(lang)
     rng = shard_rng(ID, spec['seed'], spec['name'])
     labels = sorted(ix.labels)
-    token_fn = (lambda r: treegen.en_token(r, 'all', 'all')) if lang == 'en' else (lambda r: treegen.ja_token(r, 'all'))
+    token_fn = (lambda r: treegen.en_token(r, 'all-en', 'all')) if lang == 'en' else (lambda r: treegen.ja_token(r, 'all'))
     rendered_labels = {}
+    deep_chain(R, lang, formats, to_string, ix, rng, token_fn)
     for i in range(spec['cases']):
         # sentences: one per a chosen label, licensed trees, placeholder(s)
         sents = []
@@ -191,6 +192,36 @@ def finish(merged, results, tier, seed, inconclusive):
             inconclusive.append(f'no labels observed for {lang}')
         if missing:
             inconclusive.append(f'labels the rule functions emit but no rendered tree contained ({lang}): {missing}')
+
+
+def deep_chain(R, lang, formats, to_string, ix, rng, token_fn):
+    """a long sentence (well under max_length 250) whose derivation is a chain: must render under Python's default recursion limit"""
+    import sys
+    from depccg.tree import Tree, ScoredTree
+    lab = sorted(l for l in ix.labels if l[1] not in ('<un>',) and not l[0].startswith('AD'))[0]
+    cats = ix.inventory
+    for shape in ('right', 'left'):
+        n = 170
+        t = Tree.make_terminal(token_fn(rng), rng.choice(cats))
+        for _ in range(n - 1):
+            leaf = Tree.make_terminal(token_fn(rng), rng.choice(cats))
+            kids = (leaf, t) if shape == 'right' else (t, leaf)
+            t = Tree.make_binary(rng.choice(cats), kids[0], kids[1], lab[0], lab[1], lang == 'en')
+        batch = [[ScoredTree(t, -3.0)]]
+        for fmt in formats:
+            R.case(('deep-chain', shape, fmt), True)
+            old = sys.getrecursionlimit()
+            sys.setrecursionlimit(1000)
+            try:
+                to_string(batch, format=fmt)
+                R.count('render:deep-chain-ok')
+            except RecursionError as e:
+                R.violation(f'render:{fmt}:raises', f'{fmt}: a {n}-word sentence with a {shape}-branching derivation cannot be rendered under the '
+                            f'default recursion limit: {e!r}', {'lang': lang, 'format': fmt, 'shape': shape, 'words': n})
+            except Exception as e:
+                R.violation(f'render:{fmt}:raises', f'{fmt}: deep chain raised {e!r}', {'lang': lang, 'format': fmt, 'shape': shape})
+            finally:
+                sys.setrecursionlimit(old)
 
 
 def strip(node):
